@@ -8,7 +8,7 @@ use crate::{for_both, Ctx};
 use blsful::*;
 use serde_json::json;
 
-pub const RULE: &str = "keys = edge scalars E + magnitude boundaries (2^32, 2^64-1, 2^64, 2^248, 0x73*2^248 quick; 2^k-1, 2^k, 2^k+1 thorough) + random pool (12 quick / 100 thorough), both groups. Per key: proof_of_possession twice (determinism), verify against own key (library and reference PopVerify), byte equality with reference PopProve; every ORDERED pair of distinct keys in the pool: proof of i against key j must fail (library and reference); every negative question is asked three times in a row, directly after an accepted one (an acceptance on any attempt counts); perturbations of the proof point: +G, negation, doubling, P+pop(other), a plain signature (each scheme) over the public-key bytes, the proof moved by a cofactor-torsion point presented as bytes to all three decoders, re-encoded (must still pass). History clusters (3 quick / 48 thorough per group, shared with C01/C03): prove and verify possession (own key, another key) next to signing and verifying under every scheme and both group assignments, every ordered pair (a,b) as a,b,b,a with the reference's answers. Distinct by (suite, kind, pk, proof); non-trivial = both points decode and the pairing equation decides.";
+pub const RULE: &str = "keys = edge scalars E + magnitude boundaries (2^32, 2^64-1, 2^64, 2^248, 0x73*2^248 quick; 2^k-1, 2^k, 2^k+1 thorough) + random pool (12 quick / 100 thorough), both groups. Per key: proof_of_possession twice (determinism), verify against own key (library and reference PopVerify), byte equality with reference PopProve; every ORDERED pair of distinct keys in the pool: proof of i against key j must fail (library and reference); every negative question is asked three times in a row, directly after an accepted one (an acceptance on any attempt counts); perturbations of the proof point: +G, negation, doubling, the identity point (as a constant and as P-P), the honest proof against the identity public key, P+pop(other), a plain signature (each scheme) over the public-key bytes, the proof moved by a cofactor-torsion point presented as bytes to all three decoders, re-encoded (must still pass). History clusters (3 quick / 48 thorough per group, shared with C01/C03): prove and verify possession (own key, another key) next to signing and verifying under every scheme and both group assignments, every ordered pair (a,b) as a,b,b,a with the reference's answers. Distinct by (suite, kind, pk, proof); non-trivial = both points decode and the pairing equation decides.";
 
 pub fn run(ctx: &mut Ctx) {
     for_both!(run_suite, ctx);
@@ -116,6 +116,10 @@ fn run_suite<C: Suite>(ctx: &mut Ctx) {
             ("2P".into(), p.mul(&two), false),
             ("P+pop(other)".into(), p.add(refimpl::pop_prove::<C::R>(&other)), false),
             ("(P+Q)-Q".into(), p.add(gs).sub(gs), true),
+            // the proof replaced by the identity point ("any change to the proof makes it fail";
+            // the reference's PopVerify refuses it like every other wrong point)
+            ("identity".into(), RSig::<C>::id(), false),
+            ("P-P".into(), p.sub(p), false),
         ];
         for s in refimpl::SCHEMES {
             // a signature over the public-key bytes under a signature tag is not a proof
@@ -163,6 +167,20 @@ fn run_suite<C: Suite>(ctx: &mut Ctx) {
                         ctx.hit(&format!("{n}/perturbed"), &[b"torsion", cn.as_bytes(), pkb, &moved]);
                     }
                 }
+            }
+        }
+        // the honest proof against the identity public key ("rejected for every other public key")
+        {
+            let idpk = PublicKey::<C>::default();
+            let idb = pk_bytes(&idpk);
+            if !refimpl::pop_verify::<C::R>(&idb, popb) {
+                let got = ctx.guard("ProofOfPossession::verify", || d("identity public key"), || [pop.verify(idpk).is_ok(), pop.verify(idpk).is_ok(), pop.verify(idpk).is_ok()].iter().any(|x| *x));
+                if let Some(got) = got {
+                    ctx.expect(!got, &format!("C09/foreign-key-accepted/{n}/identity-key"), || d("honest proof accepted for the identity public key"));
+                    ctx.hit(&format!("{n}/other-key"), &[&idb, popb]);
+                }
+            } else {
+                ctx.harness_error("C09 reference accepts the identity public key".into());
             }
         }
         // all three decoders of the proof must give a verifying value
